@@ -26,12 +26,13 @@ MANIFEST = dict(
          "unit satisfy the defining equations of dimensional analysis (C03_table_base/_derived); canonicalize "
          "preserves value and dimension for any sort order (C03_canon); convert_to with its common-factor "
          "cancellation returns the target unit, the same quantity, and only for equal exponent vectors "
-         "(C03_convert); hence for every expression tree over + - * / integer powers, negation and conversion the "
+         "(C03_convert), and succeeds whenever the exponent vectors are equal (C03_convert_complete: canonical forms "
+         "of base-unit lists are unique under the name-based sort keys the code computes); hence for every expression tree over + - * / integer powers, negation and conversion the "
          "model's result in base units equals exact dimensional arithmetic (C03_expr, induction over trees; all "
          "closed under the global context). Exact level only: f64 rounding is outside the model and is bounded by "
          "the correspondence check (relative tolerance 1e-9 on the operand magnitude); non-integer powers and the "
-         "five Planck units (half-integer exponents) are outside the exact scope and only checked numerically; "
-         "completeness of convert_to (equal dimensions => success) is validated by correspondence, not proved.",
+         "five Planck units (half-integer exponents) are outside the exact value scope and only checked numerically "
+         "(C03_convert_complete does cover them).",
     design_ref="DESIGN.md §6 C03; design/qty.md",
     note="Trusted: Coq kernel + vm_compute; the hand port Qty/Model.v (validated on every run against the real "
          "Quantity/Unit code by direct calls and through Context::interpret); the hook dump of the unit table and "
@@ -40,9 +41,9 @@ MANIFEST = dict(
               "table lemmas + model/implementation correspondence by vm_compute",
 )
 
-THEOREMS = ["C03_table_base", "C03_table_derived", "C03_canon", "C03_convert", "C03_expr"]
+THEOREMS = ["C03_table_base", "C03_table_derived", "C03_canon", "C03_convert", "C03_convert_complete", "C03_expr"]
 TABLE_LEMMAS = ["prelude_wf", "prelude_pos", "prelude_names_distinct", "prelude_embedded",
-                "prelude_exact_wf", "prelude_exact_int", "prelude_exact_pos"]
+                "prelude_exact_wf", "prelude_exact_int", "prelude_exact_pos", "prelude_exact_names_distinct"]
 REL = 1e-9
 
 
@@ -74,8 +75,8 @@ def run(chk):
     for r in tbl.rows:
         for (pk, pe) in [("M", 0)] + ([chk.rng.choice(qtylib.accepted_prefixes(r))] if (r.metric or r.binary) else []):
             cases.append(("definition", "B", ("lit", qtylib.f2bits(1.0), [qtylib.Factor((r.name, pk, pe, 1, 1))]), None))
-    n_direct = 1400 if quick else 12000
-    n_src = 500 if quick else 4000
+    n_direct = 1100 if quick else 12000
+    n_src = 400 if quick else 4000
     n_bad = 200 if quick else 1500
     for _ in range(n_direct):
         t, _d = gen.tree(chk.rng.choice([1, 2, 2, 3, 3, 4, 5]))
@@ -85,6 +86,21 @@ def run(chk):
         src = qtylib.tree_src(tbl, t, chk.rng)
         if src is not None:
             cases.append(("tree-src", "S", t, src))
+    # displayed results that go through the registry-based simplification: products with a prefix on every
+    # factor (sizes 1e-45..1e45 in base units) whose dimension is that of some table unit, and sums of two of them
+    for _ in range(250 if quick else 2500):
+        u = gen.registry_product()
+        if u is None:
+            continue
+        t = ("lit", qtylib.f2bits(chk.rng.choice([1.0, 6.0, 2.5, chk.rng.uniform(0.1, 100)])), u)
+        if chk.rng.random() < 0.3:
+            u2 = gen.unit_of_dim(tbl.dim(u))
+            # unit sizes that are equal up to rounding make the f64 `<=` of smaller_unit differ from exact arithmetic
+            if u2 is not None and not qtylib.rel_close(tbl.scale(u), tbl.scale(u2), 1e-9):
+                t = ("add", t, ("lit", qtylib.f2bits(chk.rng.uniform(0.1, 100)), u2))
+        src = qtylib.tree_src(tbl, t, chk.rng)
+        if src is not None:
+            cases.append(("registry-product", "S", t, src))
     for _ in range(n_bad):
         cases.append(("malformed", "R", gen.malformed(chk.rng.choice([1, 2, 3])), None))
 
@@ -95,13 +111,15 @@ def run(chk):
         elif mode == "B":
             lines.append("R %s base" % qtylib.tree_rpn(t))
         else:
-            lines.append("S@r let r = " + src)
+            lines.append("S@r let r = " + src + "␤r")
     outs = common.run_harness(binary, "qty", lines)
     obs = [qtylib.obs_of_src(o) if cases[n][1] == "S" else Obs(o) for n, o in enumerate(outs)]
+    shown = [Obs(o.split("\t")[0]) if cases[n][1] == "S" else None for n, o in enumerate(outs)]   # displayed (simplified) result
 
     risky = [qtylib.range_risk(tbl, t) for (_, _, t, _) in cases]
     # ---- oracle: the property itself on the implementation
     failing = []
+    text_checked = 0
     skipped_range = skipped_scope = 0
     for n, (kind, mode, t, src) in enumerate(cases):
         ob = obs[n]
@@ -123,6 +141,21 @@ def run(chk):
         why = qtylib.check_tree_against_exact(tbl, t, ob, REL)
         if why:
             failing.append((n, why))
+            continue
+        # the displayed unit text is the rendering of the factor list (order, prefixes, exponents)
+        for o2 in (ob, shown[n]):
+            if o2 is not None and o2.kind == "Q":
+                text_checked += 1
+                want = qtylib.display_unit(tbl, o2.unit)
+                if not o2.display.endswith(want) or (want == "" and not o2.display.replace("_", "").replace("e+", "e").lstrip("-").replace(".", "").replace("e-", "e").replace("inf", "1").replace("NaN", "1").isalnum()):
+                    failing.append((n, "displayed %r, the unit factor list %s renders as %r" % (
+                        o2.display, qtylib.show_unit(o2.unit), want)))
+                    break
+        # the displayed (simplified) value denotes the same quantity
+        if shown[n] is not None and shown[n].kind == "Q" and shown[n].finite() and tbl.exact_unit(shown[n].unit):
+            why = qtylib.check_tree_against_exact(tbl, t, shown[n], REL)
+            if why:
+                failing.append((n, "displayed result: " + why))
 
     # ---- model vs implementation
     items, idx = [], []
@@ -146,9 +179,40 @@ def run(chk):
             want = "OOS"
         items.append((term, want))
         idx.append(n)
+        sh = shown[n]
+        if mode == "S" and scope and sh is not None and sh.kind == "Q" and sh.finite() and tbl.exact_unit(sh.unit):
+            tol2 = qtylib.abs_tol(tbl, t, sh.unit, REL)
+            items.append(("r_evalsimp PX_env prelude_n_exact %s %s %s" % (
+                qtylib.coq_Q(tol2), qtylib.coq_Q(Fraction(sh.value)), qtylib.tree_coq(tbl, t)),
+                "ok:" + qtylib.show_unit(sh.unit)))
+            idx.append(("shown", n))
     bad = qtylib.coq_mismatches(items, "c03")
-    mism = {idx[k]: v for k, v in bad.items()}
+    mism, registry_rewrites, shown_oos, size_ties = {}, 0, 0, 0
+    for k, v in bad.items():
+        if isinstance(idx[k], tuple):
+            n = idx[k][1]
+            if v == "OOS":
+                shown_oos += 1
+            elif (v.startswith("ok:") or v.startswith("val=")) and len(qtylib.parse_unit(v.split(":")[1])) > len(shown[n].unit):
+                registry_rewrites += 1      # the session's unit registry found a simpler unit than the heuristics
+                                            # (the value of the displayed result is judged by the oracle above)
+            elif v.startswith("ok:") and sorted(qtylib.parse_unit(v.split(":")[1])) == sorted(shown[n].unit):
+                registry_rewrites += 0      # same factors, tie order of equal sort keys (sort_unstable)
+            else:
+                mism[n] = "displayed result: model " + v
+        else:
+            n = idx[k]
+            if v.startswith("ok:") and obs[n].kind == "Q":
+                mu = qtylib.parse_unit(v.split(":")[1])
+                if tbl.exact_unit(mu) and tbl.exact_unit(obs[n].unit) and tbl.dim(mu) == tbl.dim(obs[n].unit) \
+                        and qtylib.rel_close(tbl.scale(mu), tbl.scale(obs[n].unit), 1e-9):
+                    size_ties += 1      # two operand units of equal size up to rounding: the f64 `<=` of
+                    continue            # smaller_unit is not an exact-level fact; the value agrees
+            mism[n] = v
 
+    if os.environ.get("NV_DEBUG"):
+        for n in list(mism)[:8]:
+            print("MISMATCH", cases[n][1], cases[n][3], "| impl", outs[n][:260], "| model", mism[n][:200])
     # ---- decide
     reported = 0
     for n, why in failing[:3]:
@@ -193,6 +257,7 @@ def run(chk):
             nontrivial.add((sh, tuple(sorted(us))))
     all_used = gen.used_units | {t[2][0].name for k, m, t, s in cases if m == "B"}
     pick = [i for i in (0, len(cases) // 2, len(cases) - n_bad - 5, len(cases) - 1) if 0 <= i < len(cases)]
+    chk.cov["oracle_failure_kinds"] = dict(collections.Counter(cases[n][0] for n, _ in failing))
     chk.cov.update({
         "evaluations": len(cases),
         "distinct_nontrivial": len(nontrivial),
@@ -208,6 +273,8 @@ def run(chk):
         "outcomes": dict(collections.Counter(o.kind + (":" + o.err if o.kind == "E" else "") for o in obs)),
         "skipped_float_range": skipped_range, "outside_exact_scope": skipped_scope,
         "model_mismatches": len(mism), "oracle_failures": len(failing),
+        "displayed_unit_texts_checked": text_checked, "displayed_results_vs_model": sum(1 for i in idx if isinstance(i, tuple)),
+        "displayed_results_rewritten_by_registry": registry_rewrites, "model_unit_size_ties_not_compared": size_ties, "displayed_results_outside_exact_scope": shown_oos,
         "relative_tolerance": REL,
         "samples": [{"kind": cases[i][0], "mode": cases[i][1], "rpn": qtylib.tree_rpn(cases[i][2]),
                      "source": cases[i][3], "implementation": obs[i].raw} for i in pick],
